@@ -170,7 +170,10 @@ class FunctionLogger:
 
         # Check returned function SD
         if self.he_noise_flag and (
-            not np.isfinite(fsd) or not np.isreal(fsd) or fsd <= 0.0
+            fsd is None
+            or not np.isfinite(fsd)
+            or not np.isreal(fsd)
+            or fsd <= 0.0
         ):
             error_message = """FunctionLogger:InvalidNoiseValue
                 The returned estimated SD (second function output)
